@@ -506,7 +506,6 @@ func c01Rekey(p *chk.Prog, r *chk.Report) {
 	x.Check("SetBalancer:key-read-after-converge", cmpSite.Pos(), !after.Found, "", "the allocation key is not re-read between convergeBalancer and the comparison")
 	// from the true edge: all returns are ReprocessAll
 	isRA := isObjNamed(f, "internal/k8s/controllers.SyncStateReprocessAll")
-	isErr := isObjNamed(f, "internal/k8s/controllers.SyncStateError")
 	var resVar types.Object
 	// the variable assigned ReprocessAll on the true branch
 	thenB := cmpSite.B.Succs[0]
@@ -519,8 +518,35 @@ func c01Rekey(p *chk.Prog, r *chk.Report) {
 		x.Fail("SetBalancer:rekey-sets-reprocess", cmpSite.Pos(), "the changed-allocation-key branch does not set the result to SyncStateReprocessAll")
 		return
 	}
+	w := stickyReprocess(f, g, chk.Site{G: g, B: thenB, I: len(thenB.Nodes)}, resVar)
+	x.Check("SetBalancer:rekey-returns-reprocess", posOf(w, f), !w.Found, "", "after the allocation key changed, a return that is not SyncStateReprocessAll (nor the UpdateStatus failure) is reachable: "+describe(f, w))
+}
+
+// KEY-LIFETIME: Unassign frees an address's sharing key only when no port
+// owner remains.
+func c01KeyLifetime(p *chk.Prog, r *chk.Report) {
+	x := r.Rule("KEY-LIFETIME", "B path", "in (*Allocator).Unassign, delete(a.sharingKeyForIP, ip) is dominated by len(a.portsInUse[ip]) == 0 for the same address (the key of an address outlives every service that still owns a port on it)", 1)
+	f := need(x, p, allocPkg, "Allocator", "Unassign")
+	if f == nil {
+		return
+	}
+	g := f.Graph()
+	for _, s := range g.FindPat("delete(RECV.sharingKeyForIP, K)") {
+		k := s.Node.(*ast.CallExpr).Args[1]
+		ok := g.Dominated(s, g.GPat(true, "len(RECV.portsInUse[K]) == 0", chk.H("K", func(e ast.Expr) bool { return f.SameExpr(e, k) })))
+		x.Check("Unassign:delete-sharingKeyForIP", s.Pos(), ok, "", "the sharing key of an address is dropped while other services may still own ports on it")
+	}
+}
+
+// stickyReprocess walks from `from` and reports a path on which the result
+// variable is overwritten with something other than SyncStateReprocessAll, or
+// a return that yields neither the variable nor ReprocessAll (the return of
+// SyncStateError behind a failed UpdateStatus is the one exemption).
+func stickyReprocess(f *chk.Fn, g *chk.Graph, from chk.Site, resVar types.Object) chk.Witness {
+	isRA := isObjNamed(f, "internal/k8s/controllers.SyncStateReprocessAll")
+	isErr := isObjNamed(f, "internal/k8s/controllers.SyncStateError")
 	updErr := g.GErrNil(false, "RECV.client.UpdateStatus(_)")
-	w := (&chk.Walk{G: g, From: chk.Site{G: g, B: thenB, I: len(thenB.Nodes)}, Hit: func(n ast.Node) bool {
+	return (&chk.Walk{G: g, From: from, Inclusive: true, Hit: func(n ast.Node) bool {
 		switch s := n.(type) {
 		case *ast.AssignStmt:
 			for i, l := range s.Lhs {
@@ -543,21 +569,4 @@ func c01Rekey(p *chk.Prog, r *chk.Report) {
 		}
 		return false
 	}}).Run()
-	x.Check("SetBalancer:rekey-returns-reprocess", posOf(w, f), !w.Found, "", "after the allocation key changed, a return that is not SyncStateReprocessAll (nor the UpdateStatus failure) is reachable: "+describe(f, w))
-}
-
-// KEY-LIFETIME: Unassign frees an address's sharing key only when no port
-// owner remains.
-func c01KeyLifetime(p *chk.Prog, r *chk.Report) {
-	x := r.Rule("KEY-LIFETIME", "B path", "in (*Allocator).Unassign, delete(a.sharingKeyForIP, ip) is dominated by len(a.portsInUse[ip]) == 0 for the same address (the key of an address outlives every service that still owns a port on it)", 1)
-	f := need(x, p, allocPkg, "Allocator", "Unassign")
-	if f == nil {
-		return
-	}
-	g := f.Graph()
-	for _, s := range g.FindPat("delete(RECV.sharingKeyForIP, K)") {
-		k := s.Node.(*ast.CallExpr).Args[1]
-		ok := g.Dominated(s, g.GPat(true, "len(RECV.portsInUse[K]) == 0", chk.H("K", func(e ast.Expr) bool { return f.SameExpr(e, k) })))
-		x.Check("Unassign:delete-sharingKeyForIP", s.Pos(), ok, "", "the sharing key of an address is dropped while other services may still own ports on it")
-	}
 }
